@@ -93,6 +93,17 @@ Theorem C12_extract_partial_spec :
 Proof. exact extract_partial_spec. Qed.
 Print Assumptions C12_extract_partial_spec.
 
+(* When the extraction stops with an error, what is on disk is exactly the result of the entries
+   before the failing one (the failing entry has no effect of its own, restoreDirModes has not run). *)
+Theorem C12_partial_is_prefix_run :
+  forall priv pre umask preserve es f x f',
+    extract_list_partial priv pre umask preserve f es = (f', Some x) ->
+    exists done rest e, es = done ++ e :: rest /\
+      extract_list_p priv pre umask preserve f done = Ok f' /\
+      extract_entry_p priv pre umask preserve f' e = Err x.
+Proof. exact extract_list_partial_root. Qed.
+Print Assumptions C12_partial_is_prefix_run.
+
 (* The code before restoreDirModes (directories created with their recorded mode): the owner
    cannot fill a 0555 directory (EACCES), with and without PreservePermissions; root can; the
    current code can.  Finding "nonroot-permission-denied", fixed in the repository. *)
